@@ -9,10 +9,22 @@ Tpl(k, a, b) == CASE k = 1 -> "it costs 10.5 " \o a \o " 50 today and 20 " \o b 
                   [] k = 3 -> "10 " \o a \o " " \o b \o " 20 and 5 " \o a
                   [] k = 4 -> "15 " \o a \o " 50 " \o b \o " 7"
                   [] k = 5 -> "pay 3 " \o a \o " and 4 " \o b \o " 5 " \o a \o " 6"
+                  [] k = 6 -> "10 " \o a \o " 20 " \o a \o " 30 " \o b                     \* three and four chained amounts
+                  [] k = 7 -> "10 " \o a \o " 20 " \o b \o " 30 " \o a \o " 40"
+(* zh-cn: numeral + unit followed by the half word (三斤半) and again by a unit or an amount; written with the {hex}
+   escapes the harness decodes *)
+ZhNum == <<"{4e09}", "{4e94}", "{4e24}", "3">>          \* 三 五 两 3
+ZhUnit == <<"{65a4}", "{7c73}", "{5143}", "{516c}{65a4}">> \* 斤 米 元 公斤
+Half == "{534a}"
+ZhTpl(k, n, u, v) == CASE k = 1 -> n \o u \o Half \o v
+                       [] k = 2 -> n \o u \o Half
+                       [] k = 3 -> n \o u \o Half \o n \o v
+                       [] k = 4 -> n \o u \o Half \o " " \o n \o v \o Half
 ASSUME PrintT(<<"UNITS", Units>>)
 VARIABLES c, pc
 vars == <<c, pc>>
-Init == /\ c \in { [text |-> Tpl(k, Units[a], Units[b]), culture |-> cul] : k \in 1..5, a \in 1..Len(Units), b \in 1..Len(Units), cul \in {"en-us", "es-es", "pt-br"} }
+Init == /\ c \in { [text |-> Tpl(k, Units[a], Units[b]), culture |-> cul] : k \in 1..7, a \in 1..Len(Units), b \in 1..Len(Units), cul \in {"en-us", "es-es", "pt-br"} }
+                 \cup { [text |-> ZhTpl(k, ZhNum[n], ZhUnit[u], ZhUnit[v]), culture |-> "zh-cn"] : k \in 1..4, n \in 1..Len(ZhNum), u \in 1..Len(ZhUnit), v \in 1..Len(ZhUnit) }
         /\ pc = "gen"
 Emit == pc = "gen" /\ pc' = "done" /\ UNCHANGED c
 Next == Emit
